@@ -247,6 +247,13 @@ Example ex_http_resent_chunk_nonvacuous :
   = VImm [1; 2; 3; 4; 5; 6; 7; 8; 9] [wit_rec0].
 Proof. vm_compute. repeat split. Qed.
 
+(* close() whose rename into the final place fails (incoming/ on another file
+   system, EXDEV): fileutil.rename gives up, no file call follows; the upload
+   stays under incoming/ and is discarded by the restart *)
+Example ex_failed_close_writes_nothing :
+  forall si sh s, plain_ops (ImmCloseFailed si sh) s = [] /\ touched (ImmCloseFailed si sh) = [].
+Proof. intros. split; reflexivity. Qed.
+
 (* other_shares_untouched: the witness operation names share 0/0 only *)
 Example ex_touched_nonvacuous :
   touched wit_op = [Final 0 0] /\ ~ In (Final 0 1) (touched wit_op).
